@@ -68,6 +68,11 @@ func hx(b []byte) string {
 	return hex.EncodeToString(b)
 }
 
+var (
+	totalDisagreements int
+	runStart           time.Time
+)
+
 // note records one evaluated case.
 func note(section, signature string) {
 	sum.Evaluations++
@@ -79,12 +84,17 @@ func note(section, signature string) {
 // at most 5 per (section, class) are kept.
 func disagree(class string, input, impl, model any, spec bool, detail string) {
 	perKind[class]++
+	totalDisagreements++
 	sum.Count("disagreement:" + class)
-	if perKind[class] > 5 {
-		return
+	if perKind[class] <= 5 {
+		sum.Disagreements = append(sum.Disagreements, hcommon.Disagreement{
+			Input: input, Impl: impl, Model: model, SpecViolation: spec, Detail: class + ": " + detail})
 	}
-	sum.Disagreements = append(sum.Disagreements, hcommon.Disagreement{
-		Input: input, Impl: impl, Model: model, SpecViolation: spec, Detail: class + ": " + detail})
+	if totalDisagreements >= 40 {
+		// the verdict is settled; a wedged peer costs `wedge` per case, so the rest is not run
+		sum.Notes = append(sum.Notes, "stopped after 40 disagreements")
+		finish(runStart)
+	}
 }
 
 // guard runs f, turning a panic of the implementation into a disagreement.
@@ -239,6 +249,7 @@ func main() {
 	sum = hcommon.Summary{Family: "frames", Property: *flagProperty, Seed: *flagSeed, Tier: *flagTier}
 	rng := hcommon.NewRNG(*flagSeed)
 	t0 := time.Now()
+	runStart = t0
 
 	// source drift since the model was last reconciled -> thorough width
 	if d := kv(driver([]string{"hashes"})[0])["drift"]; d != "-" && d != "" {
@@ -274,6 +285,11 @@ func main() {
 		}
 	}
 
+	finish(t0)
+}
+
+// finish writes the summary and ends the run.
+func finish(t0 time.Time) {
 	sum.DistinctNontrivial = len(distinct)
 	sum.Rule = "distinct case signatures: handshake = request class (magic, reserved bytes, both nibbles) x limit configuration; " +
 		"client handshake = protocol x limit x reply class; stream = serializer x limit x sequence of (frame kind, length class) x cut class; " +
@@ -287,6 +303,7 @@ func main() {
 		os.Exit(2)
 	}
 	fmt.Printf("frames: %d evaluations, %d distinct, %d disagreements\n", sum.Evaluations, len(distinct), len(sum.Disagreements))
+	os.Exit(0)
 }
 
 func runReplay(c replayCase) {
